@@ -7,12 +7,13 @@ RULE = ('sFlow datagrams (agent v4/v6) of 0..12 samples, three quarters flow / e
         'random order drawn from: raw Ethernet headers that are complete or cut captures of model frames (C10), raw headers '
         'of other protocols, sampled IPv4/IPv6, extended switch/router/gateway (AS path 0/1 segment, communities), queue, '
         'ACL, function, unknown records; the rest counter/drop samples; through the real SFlowPipe with a recording '
-        'transport: implementation == model for every message column; mutants at byte level. '
+        'transport: implementation == model for every message column; mutants at byte level; the probe datagrams of the '
+        'documentation-column theorem (one extended record each, five raw headers) through the real pipe. '
         'non-trivial = at least one flow message produced; distinct by input bytes')
 TRUSTED = ['Coq 8.16.1 kernel (coqc)', 'extraction + ocaml/main.ml glue', 'Go harness harness/pipe.go, bin/engine.py, bin/pipefam.py',
            'modelled, not verified: producer/proto/producer_sf.go, proto.go (sFlow branch), utils/pipe.go SFlowPipe']
 ASSUMPTIONS = ['Model/ProdSF.v corresponds to the sFlow producer on all datagrams, as sampled by this run',
-               'the reference mapping is the model itself; the documented rules are stated as theorems about it (Properties/C09.v)']
+               'the sFlow column of docs/protocols.md (regenerated into Spec/DocTable.v on every build) is the reference for where each column comes from (theorem c09_doc_sflow_column_implemented); the value semantics of sampled IPv4/IPv6 records is the model itself']
 STREAMS = [dict(name='sflow', stream=0, n=dict(quick=800, thorough=20000), timeout=120.0)]
 
 
@@ -21,4 +22,5 @@ def nontrivial(inp, out):
 
 
 def run(chk):
-    return run_pipe_property(chk, sys.modules[__name__], STREAMS, dict(quick=2000, thorough=40000))
+    return run_pipe_property(chk, sys.modules[__name__], STREAMS, dict(quick=2000, thorough=40000),
+                             extra=lambda c: doc_column_part(c, 'sf'))
